@@ -23,9 +23,12 @@ for n in names:
     viol = re.findall(r"^VIOLATION .*$", out, flags=re.M)
     with_input = [v for v in viol if "no-failing-input-found" not in v]
     m = re.search(r'"case": "((?:[^"\\]|\\.)*)"', out)
-    if with_input: res = "detected: VIOLATION with a failing input"
+    ran = re.search(r"\[check\] %s \w+: \d+ cases" % pid, out)
+    if "PATCH-DOES-NOT-APPLY" in out: res = "ERROR: patch does not apply to the current tree"
+    elif with_input: res = "detected: VIOLATION with a failing input"
     elif viol: res = "detected: VIOLATION no-failing-input-found"
-    else: res = "MISSED"
+    elif ran and "exit=0" in out: res = "MISSED"
+    else: res = "ERROR: the check did not run to completion (%s)" % out.strip().split("\n")[-1][:120]
     meta["detected_by"] = {"check": "./check %s --tier %s" % (pid, tier), "result": res,
                            "example_replay_case": (m.group(1)[:300] if m else None)}
     json.dump(meta, open(os.path.join(d, "meta.json"), "w"), indent=1)
